@@ -244,7 +244,23 @@ pub fn tree_worker(prop: &str, tier: &str, k: usize, n: usize, ctx: &mut Ctx) {
       crate::clear_current_case();
     }
     "C02" => sweep(ctx, &general_scope(tier), k, n, &all, &mut |c, t| tc::c02(c, t)),
-    "C03" => sweep(ctx, &general_scope(tier), k, n, &all, &mut |c, t| tc::c03(c, t)),
+    "C03" => {
+      sweep(ctx, &general_scope(tier), k, n, &all, &mut |c, t| tc::c03(c, t));
+      // SourceMapSource with an inner map: map() and the stream go through the same composition
+      let mut st = Striper::new(k, n);
+      let mut cnt = 0u64;
+      crate::c09::for_each_combined_term("quick", &mut st, &mut |t| {
+        cnt += 1;
+        if tier != "thorough" && cnt % 3 != 0 {
+          return;
+        }
+        crate::set_current_case(t);
+        ctx.states += 1;
+        ctx.count("combined_map_leaves");
+        tc::c03(ctx, t);
+      });
+      crate::clear_current_case();
+    }
     "C04" => sweep(ctx, &provenance_scope(tier), k, n, &no_cached_under_replace, &mut |c, t| tc::c04(c, t)),
     "C07" => {
       sweep(ctx, &general_scope(tier), k, n, &all, &mut |c, t| {
@@ -306,7 +322,7 @@ pub fn tree_worker(prop: &str, tier: &str, k: usize, n: usize, ctx: &mut Ctx) {
       let mut cnt = 0u64;
       crate::c09::for_each_combined_term("quick", &mut st, &mut |t| {
         cnt += 1;
-        if tier != "thorough" && cnt % 4 != 0 {
+        if tier != "thorough" && cnt % 3 != 0 {
           return;
         }
         for w in [t.clone(), Term::replace(t.clone(), vec![crate::term::Repl::new(1, 2, "X")]), Term::cached(t.clone())] {
@@ -497,14 +513,16 @@ pub fn c13_worker(tier: &str, k: usize, n: usize, ctx: &mut Ctx) {
         ctx.transitions += 2;
       }
     }
-    // a ReplaceSource with only empty (also named) insertions around a boxed two-child composite
-    for sib in &siblings {
-      let pair = Term::concat(vec![sib.clone(), a.clone()]);
+    // a ReplaceSource with only empty (also named) insertions around a boxed two-child composite,
+    // the second child plain and behind a cache (asked twice: the cache then replays)
+    for (sib, second) in siblings.iter().flat_map(|s| [(s, a.clone()), (s, Term::cached(a.clone()))]) {
+      let pair = Term::concat(vec![sib.clone(), second]);
       let plen = crate::model::model_text(&pair).len() as u32;
       for p in 0..=plen + 1 {
         for named in [false, true] {
           let r = if named { Repl::new(p, p, "").named("zz") } else { Repl::new(p, p, "") };
-          tc::c13_pair(ctx, if named { "replace_empty_insert_named_over_pair" } else { "replace_empty_insert_over_pair" }, &pair, &Term::replace(Term::boxed(pair.clone()), vec![r]), true);
+          let base = pair.strip_cached();
+          tc::c13_pair(ctx, if named { "replace_empty_insert_named_over_pair" } else { "replace_empty_insert_over_pair" }, &base, &Term::replace(Term::boxed(pair.clone()), vec![r]), true);
           ctx.transitions += 1;
         }
       }
@@ -865,7 +883,7 @@ pub fn for_each_wild_map_leaf(tier: &str, st: &mut Striper, visit: &mut dyn FnMu
   use crate::term::O4;
   let kinds: Vec<Option<O4>> = vec![None, Some(K_A), Some((5, 9, 9, Some(7))), Some((0, 0, 0, None)), Some(K_B)];
   let max = if tier == "thorough" { 3 } else { 2 };
-  for text in ["", "a", "a\n", "\n", "ab\ncd", "é\n"] {
+  for text in ["", "a", "a\n", "\n", "ab\ncd", "é\n", "𝒳a\n"] {
     let nlines = text.matches('\n').count() as u32 + 1;
     let mut grid: Vec<(u32, u32)> = Vec::new();
     for l in 1..=nlines + 2 {
@@ -1091,7 +1109,7 @@ pub fn c17_tree_worker(tier: &str, k: usize, n: usize, ctx: &mut Ctx) {
   for_each_wild_combined(&mut st, &mut |t| {
     wc += 1;
     // quick tier: every other member of the big product (the huge-index members come first and are always run)
-    if tier != "thorough" && wc > 48 && wc % 2 == 0 {
+    if tier != "thorough" && wc > 48 && wc % 3 == 0 {
       return;
     }
     crate::set_current_case(t);
